@@ -91,7 +91,7 @@ InitLp(r) ==
   /\ LET p == loc[r].lp
          m == FreeId IN
      /\ msg' = TW!Put(msg, m, [lp |-> p, t |-> 0, ty |-> 65534, pid |-> -1, flags |-> 2, inq |-> "none", q |-> r, src |-> -1,
-                               rem |-> FALSE, sq |-> 0, nm |-> 0])
+                               rem |-> FALSE, sq |-> 0, nm |-> 0, pnm |-> 0])
      /\ hist' = [hist EXCEPT ![p] = Append(@, [k |-> "e", m |-> m, t |-> 0, ty |-> 65534, pid |-> -1, g |-> Ghost(lpst[p]), pred |-> FALSE])]
      /\ owner' = [owner EXCEPT ![p] = r]
      /\ ckpt' = [ckpt EXCEPT ![p] = <<[ref |-> Len(hist[p]) + 1, size |-> 0]>>]
@@ -113,9 +113,10 @@ SchedAlloc(r) ==
      /\ Do(TW!AllocChecks(r, m), TW!Alloc(r, m))
      /\ Goto(r, "push", [loc[r] EXCEPT !.m = m])
   /\ UNCHANGED <<lpst, snap, crem, fneed, rseq>>
-\* the network: ids 1..MaxMsg recycled smallest first; per (sender thread, destination rank) FIFO (MPI non-overtaking)
-NetFree == CHOOSE i \in 1..MaxMsg : i \notin DOMAIN net /\ \A j \in 1..(i - 1) : j \in DOMAIN net
-NetOk == \E i \in 1..MaxMsg : i \notin DOMAIN net
+\* the network: per (sender thread, destination rank) FIFO (MPI non-overtaking).  A network identity is never reused (it is the
+\* ghost "true identity" of a send) and does not depend on the interleaving: (sender thread, destination rank, position in the stream)
+NetId(r, k) == (r * 4 + k) * 64 + rseq[r][k] + 1
+NetOk == TRUE
 SchedPush(r) ==
   /\ pc[r] = "push"
   /\ LET e == Head(loc[r].sends)
@@ -123,8 +124,8 @@ SchedPush(r) ==
          k == RankOf(OwnerOf[e.lp]) IN
      /\ IF Remote(r, e.lp)
         THEN \* mpi_remote_msg_send: gvt_remote_msg_send stamps identity and sequence number, MPI_Isend
-             LET x == [kind |-> "ev", t |-> e.t, id |-> 4 * (r + 1), sq |-> 2 * rseq[r][k], src |-> r, nm |-> NetFree, lp |-> e.lp, ty |-> e.ty,
-                       pid |-> e.pid, ord |-> rseq[r][k], to |-> k] IN
+             LET x == [kind |-> "ev", t |-> e.t, id |-> 4 * (r + 1), sq |-> 2 * rseq[r][k], src |-> r, nm |-> NetId(r, k), lp |-> e.lp, ty |-> e.ty,
+                       pid |-> e.pid, ord |-> rseq[r][k], to |-> k, pnm |-> 0] IN
              /\ NetOk
              /\ Do(TW!NetSendChecks(r, x.nm, x), TW!NetSend(r, x.nm, x))
              /\ rseq' = [rseq EXCEPT ![r][k] = @ + 1]
@@ -267,8 +268,8 @@ RbEntry(r) ==
      IF e.k = "r"
      THEN \* mpi_remote_anti_msg_send: the anti-message carries the identity and the sequence number of the cancelled send
           LET k == RankOf(OwnerOf[msg[e.m].lp])
-              x == [kind |-> "anti", t |-> msg[e.m].t, id |-> msg[e.m].flags, sq |-> msg[e.m].sq, src |-> r, nm |-> NetFree, lp |-> msg[e.m].lp, ty |-> 0,
-                    pid |-> -1, ord |-> rseq[r][k], to |-> k] IN
+              x == [kind |-> "anti", t |-> msg[e.m].t, id |-> msg[e.m].flags, sq |-> msg[e.m].sq, src |-> r, nm |-> NetId(r, k), lp |-> msg[e.m].lp, ty |-> 0,
+                    pid |-> -1, ord |-> rseq[r][k], to |-> k, pnm |-> msg[e.m].nm] IN
           /\ NetOk
           /\ Do(TW!NetSendChecks(r, x.nm, x), TW!NetSend(r, x.nm, x))
           /\ rseq' = [rseq EXCEPT ![r][k] = @ + 1]
@@ -372,6 +373,12 @@ GvtTick(r) ==
        /\ Do(TW!GvtChecks(r, g), TW!Gvt(r, g))
   /\ fneed' = [p \in LPs |-> IF OwnerOf[p] = r THEN TRUE ELSE fneed[p]]
   /\ UNCHANGED <<pc, loc, lpst, snap, crem, rseq>>
+\* msg_allocator_on_gvt: the buffers of remote sends cancelled by this thread are released once the GVT has passed them
+AtGvtOf(r) == {m \in DOMAIN msg : msg[m].inq = "atgvt" /\ msg[m].q = r /\ msg[m].t < gvtSeen[r]}
+AtGvtStep(r) ==
+  /\ MaxGvt > 0 /\ pc[r] = "idle" /\ AtGvtOf(r) # {}
+  /\ LET m == TW!Min(AtGvtOf(r)) IN Do(TW!FreeChecks(r, m), TW!Free(r, m))
+  /\ UNCHANGED <<pc, loc, lpst, snap, crem, fneed, rseq>>
 \* fossil_lp_collect: index arithmetic of src/gvt/fossil.c and model_allocator_fossil_lp_collect
 RECURSIVE LastBelow(_, _, _)
 LastBelow(p, i, g) == IF i = 0 THEN 0 ELSE IF hist[p][i].k = "e" /\ hist[p][i].t < g THEN i ELSE LastBelow(p, i - 1, g)
@@ -410,8 +417,8 @@ IsShared(r) == pc[r] \in SharedPc \/ (pc[r] = "idle" /\ (TW!InboxOf(r) # {} \/ R
 StepOf(r) ==
   \/ InitStart(r) \/ InitLp(r) \/ InitDone(r) \/ SchedAlloc(r) \/ SchedPush(r) \/ SchedSent(r) \/ SchedEnd(r) \/ DrainStep(r) \/ PopStep(r) \/ PopNone(r)
   \/ FlagStep(r) \/ FreeStep(r) \/ RbBeginStep(r) \/ RbEntry(r) \/ RbInsert(r) \/ RbRestore(r) \/ RbEndStep(r) \/ ExecStep(r) \/ ExecDone(r)
-  \/ CkptStep(r) \/ FossilStep(r) \/ FossilFree(r) \/ RecvStep(r) \/ RxAlloc(r) \/ RxPush(r) \/ RAntiStep(r) \/ EMatchStep(r) \/ Free2Step(r) \/ RbAnti(r)
-Idle(r) == pc[r] = "idle" /\ TW!InboxOf(r) = {} /\ TW!HeapOf(r) = {} /\ Receivable(r) = {}
+  \/ CkptStep(r) \/ FossilStep(r) \/ FossilFree(r) \/ RecvStep(r) \/ RxAlloc(r) \/ RxPush(r) \/ RAntiStep(r) \/ EMatchStep(r) \/ Free2Step(r) \/ RbAnti(r) \/ AtGvtStep(r)
+Idle(r) == pc[r] = "idle" /\ TW!InboxOf(r) = {} /\ TW!HeapOf(r) = {} /\ Receivable(r) = {} /\ (MaxGvt > 0 => AtGvtOf(r) = {})
 Private == {r \in ThreadsC : ~IsShared(r) /\ ~Idle(r) /\ ENABLED StepOf(r)}
 \* the kind of shared access a step of r performs ("" for a private step): the vocabulary of the observation points of the code
 KindOf(r) ==
@@ -449,8 +456,10 @@ C06_NothingLeft == Quiescent => /\ \A m \in DOMAIN msg : \/ TW!InHistE(m) /\ ~TW
                                                          \/ msg[m].rem /\ msg[m].inq = "atgvt" /\ \A p \in LPs : TW!IdxOf(p, "r", m) = {}
                                 /\ \A p \in LPs : early[p] = {}
 \* C02: at quiescence the remote sends that were not cancelled and the processed events that arrived from the network are in bijection
+\* (without fossil collection: committed entries are released on both sides independently; they are compared with the sequential
+\* history when released)
 C02_RemoteExactlyOnce ==
-  Quiescent => /\ \A m \in DOMAIN msg : IsRemoteMark(m) => Cardinality({x \in DOMAIN msg : TW!FromNet(x) /\ TW!SameRemote(m, x)}) = 1
+  (Quiescent /\ MaxGvt = 0) => /\ \A m \in DOMAIN msg : IsRemoteMark(m) => Cardinality({x \in DOMAIN msg : TW!FromNet(x) /\ TW!SameRemote(m, x)}) = 1
                /\ \A x \in DOMAIN msg : TW!FromNet(x) => Cardinality({m \in DOMAIN msg : IsRemoteMark(m) /\ TW!SameRemote(m, x)}) = 1
 \* behaviours for replay: at quiescence the order of the shared accesses is printed (always TRUE)
 EmitSched == (RecordSched /\ Quiescent) => PrintT(<<"SCHED", ToJson(sched)>>)
